@@ -134,11 +134,21 @@ func (c *Client) channelOK() bool {
 	return c.channel != nil && c.channel.Established()
 }
 
+// okChannel returns the current channel if it is usable, nil otherwise. The check and
+// the read happen under one lock: checking first and reading afterwards could hand out
+// a nil channel when the channel was dropped in between.
+func (c *Client) okChannel() *ClientChannel {
+	c.mu.RLock()
+	defer c.mu.RUnlock()
+	if c.channel != nil && c.channel.Established() {
+		return c.channel
+	}
+	return nil
+}
+
 func (c *Client) getOrBuildChannel(ctx context.Context) (*ClientChannel, error) {
-	if c.channelOK() {
-		c.mu.RLock()
-		defer c.mu.RUnlock()
-		return c.channel, nil
+	if channel := c.okChannel(); channel != nil {
+		return channel, nil
 	}
 
 	select {
@@ -152,10 +162,8 @@ func (c *Client) getOrBuildChannel(ctx context.Context) (*ClientChannel, error) 
 		<-c.lock
 	}()
 
-	if c.channelOK() {
-		c.mu.RLock()
-		defer c.mu.RUnlock()
-		return c.channel, nil
+	if channel := c.okChannel(); channel != nil {
+		return channel, nil
 	}
 
 	count := 0.0
